@@ -102,6 +102,26 @@ impl Future for SimTimer {
   }
 }
 
+/// deadline of a timer whose duration is beyond the clock's range
+pub const NEVER: u64 = u64::MAX;
+
+/// Durations at which a truncating integer conversion somewhere between the
+/// caller and the timer would wrap: 2^32 us (71.6 min), 2^32 ms (49.7 days),
+/// 2^32 s (136 years), 2^64 ns (584 years; beyond the simulated clock: never
+/// due). Free on a virtual clock.
+pub fn far_base(k: u8) -> Duration {
+  match k {
+    1 => Duration::from_micros(1 << 32),
+    2 => Duration::from_millis(1 << 32),
+    3 => Duration::from_secs(1 << 32),
+    _ => Duration::from_nanos(u64::MAX) + Duration::from_nanos(1),
+  }
+}
+/// `d` in simulated nanoseconds (NEVER if it does not fit)
+pub fn sim_ns(d: Duration) -> u64 {
+  u64::try_from(d.as_nanos()).unwrap_or(NEVER)
+}
+
 impl Shared {
   pub fn new() -> Arc<Self> {
     Arc::new(Shared {
@@ -129,7 +149,10 @@ impl Shared {
       // (checked before any lock is taken: a panic must not poison the heap)
       std::panic::panic_any(SimAbort::WouldHang);
     }
-    let deadline = self.now().saturating_add(dur.as_nanos() as u64);
+    // a duration that does not fit the 64-bit nanosecond clock (584 years and
+    // more) is a timer that never falls due: deadline NEVER, ignored by
+    // `next_deadline`
+    let deadline = u64::try_from(dur.as_nanos()).ok().and_then(|d| self.now().checked_add(d)).unwrap_or(NEVER);
     let cell = Arc::new(TimerCell { deadline, waker: Mutex::new(None) });
     let mut th = self.timers.lock().unwrap();
     let seq = th.next_seq;
@@ -145,6 +168,8 @@ impl Shared {
     while let Some(top) = th.heap.peek() {
       if top.cell.strong_count() == 0 {
         th.heap.pop();
+      } else if top.deadline == NEVER {
+        return None;
       } else {
         return Some(top.deadline);
       }
